@@ -674,6 +674,12 @@ impl ISocket for RouterSocket {
     if !self.core.is_running() {
       return Err(ZmqError::InvalidState("Socket is closing".into()));
     }
+    // Finish a message that recv() already started handing out frame by frame.
+    if let Some(frames) = self.frame_recv_buffer.lock().take() {
+      if !frames.is_empty() {
+        return Ok(FrameBatch::from(Vec::from(frames)));
+      }
+    }
     let rcvtimeo_opt = self.core.core_state.read().options.rcvtimeo;
     let (pipe_read_id, raw_batch) = self.recv_logical_finalized(rcvtimeo_opt).await?;
     let (identity_blob, payload) = self.process_incoming_zmtp_message(pipe_read_id, raw_batch)?;
